@@ -63,7 +63,6 @@ def _get_flat_type_info(cls, retval):
     if not (parent is None):
         _get_flat_type_info(parent, retval)
     retval.update(cls._type_info)
-    retval.alt.update(cls._type_info_alt)  # FIXME: move to cls._type_info.alt
     retval.attrs.update({k: v for (k, v) in cls._type_info.items()
                                                 if issubclass(v, XmlAttribute)})
     return retval
@@ -477,6 +476,24 @@ def _sanitize_type_info(cls_name, _type_info, _type_info_alt):
                 raise Exception("%r is already defined: %r" %
                                                          (key, _type_info[key]))
             _type_info_alt[key] = v, k
+
+
+def _type_info_alias(k, v):
+    """The key, other than its name, a member is also known under."""
+
+    sub_ns = v.Attributes.sub_ns
+    sub_name = v.Attributes.sub_name
+
+    if sub_ns is None and sub_name is None:
+        return None
+
+    if sub_ns is not None and sub_name is not None:
+        return "{%s}%s" % (sub_ns, sub_name)
+
+    if sub_ns is None:
+        return sub_name
+
+    return "{%s}%s" % (sub_ns, k)
 
 
 D_EXC = dict(exc=True)
@@ -1066,7 +1083,17 @@ class ComplexModelBase(ModelBase):
         It's called a "flat" dict because it flattens all members from the
         inheritance hierarchy into one dict.
         """
-        return _get_flat_type_info(cls, TypeInfo())
+        retval = _get_flat_type_info(cls, TypeInfo())
+
+        # the aliases (sub_name / sub_ns) are those of the members the class
+        # has now, parents' included: nothing to keep in step.
+        for k, v in retval.items():
+            if isclass(v) and issubclass(v, ModelBase):
+                key = _type_info_alias(k, v)
+                if key is not None:
+                    retval.alt[key] = v, k
+
+        return retval
 
     @classmethod
     def get_orig(cls):
@@ -1278,6 +1305,7 @@ class ComplexModelBase(ModelBase):
             cls._process_variants(retval)
 
         _process_child_attrs(cls, retval, kwargs)
+        retval._refresh_type_info_alt()
 
         # we could be smarter, but customize is supposed to be called only
         # during daemon initialization, so it's not really necessary.
@@ -1286,6 +1314,26 @@ class ComplexModelBase(ModelBase):
         ComplexModelBase.get_simple_type_info_with_prot.memo.clear()
 
         return retval
+
+    @classmethod
+    def _refresh_type_info_alt(cls):
+        """The alias table (sub_name / sub_ns of the members) follows the field
+        table: it's rebuilt whenever a member is added to or replaced in a
+        finished class."""
+
+        alt = TypeInfo()
+        if cls.__extends__ is not None:
+            alt.update(cls.__extends__._type_info_alt)
+
+        for k, v in cls._type_info.items():
+            if not isclass(v) or not issubclass(v, ModelBase):
+                continue
+
+            key = _type_info_alias(k, v)
+            if key is not None:
+                alt[key] = v, k
+
+        cls._type_info_alt = alt
 
     @classmethod
     def _process_variants(cls, retval):
@@ -1312,6 +1360,7 @@ class ComplexModelBase(ModelBase):
                 field_type = field_type.customize(**d_cust)
 
         cls._type_info[field_name] = field_type
+        cls._refresh_type_info_alt()
 
         ComplexModelBase.get_flat_type_info.memo.clear()
         ComplexModelBase.get_simple_type_info_with_prot.memo.clear()
@@ -1349,6 +1398,7 @@ class ComplexModelBase(ModelBase):
                 field_type = field_type.customize(**d_cust)
 
         cls._type_info.insert(index, (field_name, field_type))
+        cls._refresh_type_info_alt()
 
         ComplexModelBase.get_flat_type_info.memo.clear()
         ComplexModelBase.get_simple_type_info_with_prot.memo.clear()
@@ -1369,6 +1419,7 @@ class ComplexModelBase(ModelBase):
         assert isinstance(field_name, string_types)
 
         cls._type_info[field_name] = field_type
+        cls._refresh_type_info_alt()
 
         ComplexModelBase.get_flat_type_info.memo.clear()
         ComplexModelBase.get_simple_type_info_with_prot.memo.clear()
@@ -1513,6 +1564,7 @@ class Array(ComplexModelBase):
 
         assert isinstance(member_name, string_types), member_name
         cls._type_info = TypeInfo({member_name: serializer})
+        cls._refresh_type_info_alt()
 
     # the array belongs to its child's namespace, it doesn't have its own
     # namespace.
@@ -1649,6 +1701,7 @@ def Mandatory(cls, **_kwargs):
             # passed in must stay as it is.
             retval = cls.customize(**kwargs)
             retval._type_info[k] = Mandatory(v)
+            retval._refresh_type_info_alt()
             return retval
 
     return cls.customize(**kwargs)
